@@ -54,6 +54,7 @@ type SPDesc struct {
 	Cert                *keys.Pair // nil = no KeyDescriptor
 	CertUse             string     // "signing" (default), "" (no use attribute), "encryption"
 	CertWrap            int        // 0 = unwrapped base64, else column width
+	CertSep             string     // line separator of a wrapped certificate ("" = "\n"); may indent with blanks or tabs
 	AuthnRequestsSigned string     // "" = attribute absent
 	WantAssertionSigned string
 	NoSPSSO             bool
@@ -100,7 +101,11 @@ func (d *SPDesc) Node() *Node {
 		}
 		text := d.Cert.B64()
 		if d.CertWrap > 0 {
-			text = "\n" + d.Cert.B64Wrapped(d.CertWrap, "\n") + "\n"
+			sep := d.CertSep
+			if sep == "" {
+				sep = "\n"
+			}
+			text = sep + d.Cert.B64Wrapped(d.CertWrap, sep) + sep
 		}
 		kd.Add(El("ds:KeyInfo", Attr{"xmlns:ds", NSDS}).Add(El("ds:X509Data").Add(El("ds:X509Certificate").SetText(text))))
 		sp.Add(kd)
@@ -555,9 +560,10 @@ func FormBody(kv ...string) string {
 // XMLSignOpts selects the layout of an enveloped signature.
 type XMLSignOpts struct {
 	Alg        string
-	DropKey    bool // remove KeyInfo after signing
-	WrapCert   int  // re-wrap certificate text at this column (0 = leave)
-	KeepAtEnd  bool // leave the Signature as last child instead of moving it after Issuer
+	DropKey    bool   // remove KeyInfo after signing
+	WrapCert   int    // re-wrap certificate text at this column (0 = leave)
+	WrapSep    string // separator used when re-wrapping ("" = "\n")
+	KeepAtEnd  bool   // leave the Signature as last child instead of moving it after Issuer
 	InclusiveP string
 }
 
